@@ -166,12 +166,16 @@ pub fn judge(h: &[u8], is_v1: bool, rec: &mut Recorder) {
     }
     for script in &scripts {
         for (ei, &e) in entries.iter().enumerate() {
-            if e == 1 && !stream_bytes.is_ascii() {
+            if e == 1 && std::str::from_utf8(&stream_bytes).is_err() {
                 continue; // the text entry point cannot be handed a non-UTF-8 payload
             }
             let mut verdict: Option<(usize, Out)> = None;
             for &n in script {
-                let r = parse(e, &stream_bytes[..n]).unwrap();
+                // a text receiver only ever holds whole characters: skip cuts inside one
+                let r = match parse(e, &stream_bytes[..n]) {
+                    Some(r) => r,
+                    None => continue,
+                };
                 rec.event();
                 let inc = matches!(r.flags(), Some((true, _)));
                 if !inc {
@@ -179,7 +183,11 @@ pub fn judge(h: &[u8], is_v1: bool, rec: &mut Recorder) {
                     break;
                 }
             }
-            let first_enough = script.iter().copied().find(|&n| n >= h.len()).unwrap_or(total);
+            let first_enough = script
+                .iter()
+                .copied()
+                .find(|&n| n >= h.len() && (e != 1 || std::str::from_utf8(&stream_bytes[..n]).is_ok()))
+                .unwrap_or(total);
             let ok = match &verdict {
                 Some((n, r)) => *n == first_enough && *r == oneshot[ei],
                 None => false,
@@ -213,7 +221,7 @@ impl Monitor for C05 {
         "cases = complete valid headers (v1: US-ASCII TCP4/TCP6/UNKNOWN lines in every spelling; v2: every control pair, family and TLV-section kind up to 65535 bytes) accepted by both the oracle and the implementation; for each, every prefix length (all of them up to 300 bytes, a ladder plus 48 random cuts beyond) is parsed through the dedicated byte/text entry points and HeaderResult::parse and must be flagged incomplete; then the header plus a payload is fed to a simulated receiver byte-at-a-time, in 6 two-read splits and 8 random multi-read splits, whose verdict trace must be incomplete*;Ok(header); non-trivial = header accepted by oracle and implementation; distinct = distinct headers"
     }
     fn streams(&self, tier: Tier) -> Vec<StreamSpec> {
-        vec![stream("c05-v1", tier.n(20, 40_000, 4_000_000)), stream("c05-v2", tier.n(10, 30_000, 2_000_000)), stream("c05-flags", tier.n(50, 200_000, 20_000_000))]
+        vec![stream("c05-v1", tier.n(20, 120_000, 4_000_000)), stream("c05-v2", tier.n(10, 60_000, 2_000_000)), stream("c05-flags", tier.n(50, 200_000, 20_000_000))]
     }
     fn run_case(&self, stream: &str, idx: u64, seed: u64, rec: &mut Recorder) {
         let mut rng = Rng::for_case(seed, stream_id(stream), idx);
